@@ -537,7 +537,9 @@ func buildPlan(tier string, seed uint64, n int) []desc {
 	}
 	// E. marching
 	for i, d := range fixedMarch() {
-		d.RaceSub = thorough || i == 1 || i == 2 || i == 6
+		// quick: the 8-block canvas is marched by the normal binary only (18 s under -race); its accumulation is
+		// covered under -race by the accumulation-only items below
+		d.RaceSub = thorough || i == 1 || i == 6
 		plan = append(plan, d)
 	}
 	// accumulation only, repeated on fresh canvases (cheap; the -race binary needs the chunk allocations of
